@@ -1098,7 +1098,8 @@ where
 		));
 	}
 
-	// Step 2: Update outstanding transactions with no change outputs by kernel
+	// Step 2: Update outstanding transactions by kernel (including those with change outputs:
+	// a change output spent again within the same block is cut through and never shows up in the UTXO set)
 	let mut txs = {
 		wallet_lock!(wallet_inst, w);
 		updater::retrieve_txs(&mut **w, None, None, None, Some(&parent_key_id), true)?
@@ -1340,9 +1341,6 @@ where
 
 	for tx in txs.iter_mut() {
 		if tx.confirmed {
-			continue;
-		}
-		if tx.amount_debited != 0 && tx.amount_credited != 0 {
 			continue;
 		}
 		if let Some(e) = tx.kernel_excess {
